@@ -16,6 +16,7 @@ import (
 	"strings"
 
 	"github.com/foxboron/go-uefi/authenticode"
+	"github.com/foxboron/go-uefi/pkcs7"
 )
 
 // one (image, certificate) pair for Verify
@@ -152,7 +153,7 @@ func c02StdlibJudges(class string) bool {
 		"size-inflate", "table-shift", "data-after-table", "data-after-table+size":
 		return true // the blobs are the library's own, untouched (the digest overwritten in place at most)
 	}
-	for _, pre := range []string{"tampered+foreign-resign+carrier/", "tampered+genuine-carrying-foreign/"} {
+	for _, pre := range []string{"tampered+foreign-resign+carrier/", "tampered+genuine-carrying-foreign/", "cross-protocol/", "signed/"} {
 		if strings.HasPrefix(class, pre) {
 			return true
 		}
@@ -169,7 +170,7 @@ func c02StdlibJudges(class string) bool {
 // (Not among them: data-after-table+size, where the directory entry is stretched over the appended bytes - these
 // then lie inside the certificate table behind its last entry, which the digest excludes.)
 func c02MustReject(class string) bool {
-	for _, p := range []string{"digest-rewrite", "tampered+"} {
+	for _, p := range []string{"digest-rewrite", "tampered+", "blob-forge-rsa-block/", "cross-protocol/"} {
 		if strings.HasPrefix(class, p) {
 			return true
 		}
@@ -712,6 +713,9 @@ func c02Eval(c *Ctx, cs Case) {
 							if strings.HasPrefix(class, "forge-carrie") && !c.Thorough { // section 6 runs the carriers on every image
 								return
 							}
+							if (strings.HasPrefix(class, "forge-empty-content/") || strings.HasPrefix(class, "forge-resigned-under-hash/")) && !c.Thorough && k%4 != 0 {
+								return
+							}
 							c02Pair(c, cs, withTable(m, winCert(b)), right, "digest-rewrite+"+class, "right")
 						})
 					}
@@ -721,7 +725,7 @@ func c02Eval(c *Ctx, cs Case) {
 	}
 	// 4. structural / targeted edits inside the blob (content, content type, certificates, signer identity, attributes)
 	seed := p7Seed{name: "image-signature", blob: sig, right: right, twin: twin, other: stranger}
-	nf := 0
+	nf, ne := 0, 0
 	forgeries(c, seed, func(class string, b []byte) {
 		if strings.HasPrefix(class, "oid-swap") { // C04 runs all of these on the blob itself
 			nf++
@@ -735,6 +739,15 @@ func c02Eval(c *Ctx, cs Case) {
 			// certificate, a sample (section 6 runs every position on a tampered image, C04 on the blobs themselves)
 			nf++
 			if nf%4 == 0 {
+				c02Pair(c, cs, withTable(signed, winCert(b)), right, "blob-"+class, "right")
+			}
+			return
+		}
+		if (strings.HasPrefix(class, "forge-empty-content/") || strings.HasPrefix(class, "forge-resigned-under-hash/")) && !c.Thorough && cs.S("path") == "" {
+			// C04 runs every one of these on the blobs themselves under every certificate; here, on generated images, two
+			// of the nine per image under the signer's certificate (all of them on the repository binaries)
+			ne++
+			if ne%9 == int(crc32.ChecksumIEEE(sig))%9 || ne%9 == int(crc32.ChecksumIEEE(sig)>>4+4)%9 {
 				c02Pair(c, cs, withTable(signed, winCert(b)), right, "blob-"+class, "right")
 			}
 			return
@@ -954,6 +967,104 @@ func c02Eval(c *Ctx, cs Case) {
 	if pre := unhx(fieldAfter(c.Drv.Ask("pe.spec", hx(signed)), "pre=")); len(pre) > 0 {
 		c02OneObject(c, cs, signed, sig, pre, map[string]*x509.Certificate{"right": right, "twin": twin, "stranger": stranger})
 	}
+	// 11. what the signature VALUE holds, and verifying certificates whose RSA public exponent is 3. An image signed
+	// with an exponent-3 key verifies under its certificate like any other (control). Then the genuine signature blob
+	// of this image (content = this image's digest, message digest, attributes: all consistent) names another
+	// certificate and carries as its signature value octets that are no RSASSA-PKCS1-v1_5 signature by that
+	// certificate's key but that a lenient decoder of the RSA block would take for one (rsaBlockForgeries): made from
+	// the PUBLIC key alone for the exponent-3 certificate (an integer cube root), and made with the private key over
+	// blocks that deviate from 00 01 FF..FF 00 DigestInfo in one respect for the signer's own certificate.
+	{
+		e3 := lowExponentKey(c, 2048, 3)
+		e3cert := makeRSACert(e3, shapes[3])
+		if p, err := authenticode.Parse(bytes.NewReader(base)); err == nil {
+			if _, err := p.Sign(e3, e3cert); err == nil {
+				se3 := p.Bytes()
+				c02Pair(c, cs, se3, e3cert, "signed/exponent-3-key", "right")
+				if c.Thorough || cs.S("path") != "" || crc32.ChecksumIEEE(sig)%2 == 0 {
+					c02Pair(c, cs, se3, right, "signed/exponent-3-key", "stranger")
+				} else {
+					c02Pair(c, cs, se3, makeRSACert(poolKey(c, 2048, 1), shapes[3]), "signed/exponent-3-key", "twin")
+				}
+			}
+		}
+		nb := 0
+		rsaBlockForgeries(sig, nil, e3cert, func(string) bool {
+			nb++ // quick: the first two classes and one of the other two
+			return c.Thorough || cs.S("path") != "" || nb <= 2 || nb%2 == int(crc32.ChecksumIEEE(sig))%2
+		}, func(class string, b []byte) {
+			c02Pair(c, cs, withTable(signed, winCert(b)), e3cert, "blob-"+class, "named-exponent-3-certificate")
+		})
+		nb = 0
+		rsaBlockForgeries(sig, poolKey(c, 2048, 0), right, func(class string) bool {
+			nb++ // quick: a third of the classes per image
+			return strings.Contains(class, "made-with-the-private-key") && (c.Thorough || cs.S("path") != "" || nb%3 == int(crc32.ChecksumIEEE(sig))%3)
+		}, func(class string, b []byte) {
+			c02Pair(c, cs, withTable(signed, winCert(b)), right, "blob-"+class, "right")
+		})
+	}
+	// 12. a signature of the image-signing key over something that is NOT an image, moved onto the image. The key
+	// holder signs plain data with the same key and certificate - a variable update (SignEFIVariable: SignPKCS7 with
+	// content type data over name, GUID, attributes, time and payload, detached; as a ContentInfo and as the bare
+	// SignedData a descriptor carries) or a file with an OpenSSL-shaped CMS tool. Only the UNSIGNED part of that blob
+	// is rewritten: the encapsulated content info becomes the SpcIndirectDataContent of THIS image (content type
+	// rewritten to SpcIndirectDataContent, or left as data), taken from the image's genuine signature. The signed
+	// attributes (contentType data, the message digest of the plain data) and the signature are the key holder's own.
+	// The key never committed to this image's digest: nothing may verify.
+	{
+		upd := append(append([]byte{'d', 0, 'b', 0}, detBytes("variable update "+cs.Key(), 16+4+16)...), detBytes("payload "+cs.Key(), 76)...)
+		var donors []struct {
+			name string
+			blob []byte
+		}
+		add := func(name string, b []byte) {
+			if len(b) > 0 {
+				donors = append(donors, struct {
+					name string
+					blob []byte
+				}{name, b})
+			}
+		}
+		if ds, err := pkcs7.SignPKCS7(poolKey(c, 2048, 0), right, pkcs7.OIDData, upd); err == nil {
+			add("signed-variable-update", ds)
+			if r, ok := parseDER(ds); ok && len(r) == 1 {
+				add("signed-variable-update/bare-signed-data", p7SignedDataOf(r[0]).encode())
+			}
+		}
+		add("openssl-shaped-detached-data-signature", buildCMS(poolKey(c, 2048, 0), right, upd, false, crc32.ChecksumIEEE(sig)%2 == 0, true))
+		sr, ok := parseDER(sig)
+		nx := 0
+		for _, d := range donors {
+			dr, ok2 := parseDER(d.blob)
+			if !ok || !ok2 || len(sr) != 1 || len(dr) != 1 {
+				continue
+			}
+			imgECI := p7SignedDataOf(sr[0]).kids
+			if len(imgECI) < 3 || len(imgECI[2].kids) != 2 {
+				continue
+			}
+			for _, keepType := range []bool{false, true} {
+				r := dr[0].clone()
+				sd := p7SignedDataOf(r)
+				if len(sd.kids) < 4 || len(sd.kids[2].kids) != 1 {
+					continue
+				}
+				eci := imgECI[2].clone()
+				if keepType {
+					eci.kids[0] = sd.kids[2].kids[0]
+				}
+				sd.kids[2] = eci
+				class := "cross-protocol/" + d.name + map[bool]string{false: "/content-type-rewritten", true: "/content-type-left-as-data"}[keepType]
+				nx++
+				switch {
+				case c.Thorough || cs.S("path") != "" || nx == 1:
+					all(withTable(signed, winCert(r.encode())), class)
+				case nx%5 == int(crc32.ChecksumIEEE(sig))%5: // quick: the first combination under every certificate, one other under the signer's
+					c02Pair(c, cs, withTable(signed, winCert(r.encode())), right, class, "right")
+				}
+			}
+		}
+	}
 	// 5. two entries: a foreign valid signature first, ours second, and the reverse
 	if s2signed, sig2, err := signImage(c, base, 3); err == nil {
 		_ = s2signed
@@ -995,7 +1106,7 @@ func c02Gen(c *Ctx) {
 
 func init() {
 	register("C02", &PropDef{
-		Rule:   "images from the C01 generator and two repository binaries, signed by the library; for each, Verify under the signer's certificate, a twin certificate (same issuer and serial, another key) and a stranger, on: the signed image, the unsigned image, ~25 stratified single-byte changes (+8 inside the certificate table), a cross-image transplant of the certificate table, a covered-byte change with the embedded digest overwritten by the new image digest (alone, and combined with each targeted blob edit and OID replacement), targeted edits inside the blob (content, content type, certificates, signer identity, message digest, dropped attributes), a sample of generic blob mutations, two-signature tables in both orders, a tampered image carrying the original signature plus a foreign key's signature over the tampered bytes (both orders), and the same tampered image with ONE table entry: the foreign key's signature with the genuine signature over the original bytes placed inside it, in every place of a blob that can hold another blob (unsigned attributes of a signer entry under the SpcNestedSignature / MS RFC 3161 timestamp / timeStampToken / an unknown attribute type, one and two values; a counter-signature attribute holding the genuine signer entry; an extra certificate; the CRL field; a further content element; the genuine signer entries appended / prepended; trailing fields of SignedData and of the content info; a second SignedData), plus a sample of the reverse nesting. The targeted blob edits include the two-signer-entry combinations of C04 (identity x signature, and identity x attributes re-bound to replaced content) and a blob consistently re-signed by another key. Every pair is compared with the Lean Impl verifier (real SHA-256/RSA) and judged by Spec.authenticodeVerify; in addition, two oracles that do not go through Lean: (a) derivation classes whose construction rules out a success (unsigned, transplant, digest-rewrite*, tampered+*, data-after-table, size-inflate, table-shift) must not verify under any asked certificate; (b) covered-byte changes by an independent header walk: on every signed image that verifies, one bit is changed in the headers (outside checksum and certificate-table entry), at both ends of the raw data of the sections that have a place in the file, and behind the last such section up to the certificate table (its first four bytes one by one, offsets 2^k and 2^k-1 from its start, its last bytes, three random ones), and the image must no longer verify. Besides the well-formed images, 8 images whose section table also holds one or two headers that declare raw data without a file pointer (SizeOfRawData in {1,7,8,9,64,512,random} > 0, PointerToRawData = 0; in front of or behind the other headers), with fewer / exactly as many / more bytes behind the last section than these headers declare: the Lean Spec is asked (pe.spec) whether an image lies in its well-formed domain; outside it neither the Spec verdict nor the Impl model is applied, the library may refuse to parse or sign, and when it signs and verifies the image, oracle (b), the twin / stranger certificates and the table transplant still bind it. One parsed object asked repeatedly (the way a caller walks a signature database with one parsed signature): for every image, histories of 3-7 calls of Authenticode.Verify (over the hash input of the image or a changed stream), its PKCS7.Verify and PECOFFBinary.Verify on ONE parsed Authenticode / PECOFFBinary with the signer, twin and stranger certificates in both orders (signer first, other key first), mixed entry points and random walks; every call must answer what the same call answers on a freshly parsed object, and only (signer certificate, own hash input) may succeed. The histories also hold calls that are CUT SHORT: Authenticode.Verify over a reader that delivers the first k bytes of the hash input and then fails with a read error (the error in a read of its own, or together with the last bytes), or that delivers only the first k bytes, followed by a call that is handed only the REST of the hash input from k on (on the same object, or on an object parsed for that call, under the same or another certificate) and by a call over the whole image; k in {1, 63, 64, half, length-1, two random positions} (quick: one of the first five and one random), five fixed shapes per k plus the random walks, in which every step draws its stream from {whole, changed, fault@k, head@k, tail@k} and a quarter of the steps run on an object parsed for the step. The steps of a history run back to back; what each call answers alone is asked on freshly parsed objects after the history. A call over a failing reader, over a head or over a tail must never succeed. The reader-based API (Authenticode.Verify under the signer's certificate, SignAuthenticode) is run over every reader kind (bytes.Reader, bytes.Buffer, one byte per Read, data together with io.EOF, half reads, an io.SectionReader declared larger than the data) x the streams {hash input, last byte changed, middle byte changed, last byte missing, another image, the hash input without its first byte, the hash input from a position chosen by the image}, AND over seekable readers that do not stand at offset 0 when handed over: the stream behind a header of 1..96 random bytes with the reader standing on the first byte of the stream (bytes.Reader seeked / read up to there, strings.Reader seeked, io.SectionReader window into a larger buffer seeked / read up to there, *os.File seeked), and, for the two suffix streams, the same six readers over the WHOLE hash input standing at the cut; Verify must succeed exactly when the bytes the reader delivers are the hash input, SignAuthenticode (all reader kinds at offset 0; a third of the positioned ones per generated image, all of them for the repository binaries) must embed the SHA-256 of the bytes delivered. Every case is non-trivial; distinct = distinct (image bytes, certificate) resp. (image, history, step) resp. (image, stream, reader).",
+		Rule:   "images from the C01 generator and two repository binaries, signed by the library; for each, Verify under the signer's certificate, a twin certificate (same issuer and serial, another key) and a stranger, on: the signed image, the unsigned image, ~25 stratified single-byte changes (+8 inside the certificate table), a cross-image transplant of the certificate table, a covered-byte change with the embedded digest overwritten by the new image digest (alone, and combined with each targeted blob edit and OID replacement), targeted edits inside the blob (content, content type, certificates, signer identity, message digest, dropped attributes), a sample of generic blob mutations, two-signature tables in both orders, a tampered image carrying the original signature plus a foreign key's signature over the tampered bytes (both orders), and the same tampered image with ONE table entry: the foreign key's signature with the genuine signature over the original bytes placed inside it, in every place of a blob that can hold another blob (unsigned attributes of a signer entry under the SpcNestedSignature / MS RFC 3161 timestamp / timeStampToken / an unknown attribute type, one and two values; a counter-signature attribute holding the genuine signer entry; an extra certificate; the CRL field; a further content element; the genuine signer entries appended / prepended; trailing fields of SignedData and of the content info; a second SignedData), plus a sample of the reverse nesting. The targeted blob edits include the two-signer-entry combinations of C04 (identity x signature, and identity x attributes re-bound to replaced content) and a blob consistently re-signed by another key. Every pair is compared with the Lean Impl verifier (real SHA-256/RSA) and judged by Spec.authenticodeVerify; in addition, two oracles that do not go through Lean: (a) derivation classes whose construction rules out a success (unsigned, transplant, digest-rewrite*, tampered+*, data-after-table, size-inflate, table-shift) must not verify under any asked certificate; (b) covered-byte changes by an independent header walk: on every signed image that verifies, one bit is changed in the headers (outside checksum and certificate-table entry), at both ends of the raw data of the sections that have a place in the file, and behind the last such section up to the certificate table (its first four bytes one by one, offsets 2^k and 2^k-1 from its start, its last bytes, three random ones), and the image must no longer verify. Besides the well-formed images, 8 images whose section table also holds one or two headers that declare raw data without a file pointer (SizeOfRawData in {1,7,8,9,64,512,random} > 0, PointerToRawData = 0; in front of or behind the other headers), with fewer / exactly as many / more bytes behind the last section than these headers declare: the Lean Spec is asked (pe.spec) whether an image lies in its well-formed domain; outside it neither the Spec verdict nor the Impl model is applied, the library may refuse to parse or sign, and when it signs and verifies the image, oracle (b), the twin / stranger certificates and the table transplant still bind it. One parsed object asked repeatedly (the way a caller walks a signature database with one parsed signature): for every image, histories of 3-7 calls of Authenticode.Verify (over the hash input of the image or a changed stream), its PKCS7.Verify and PECOFFBinary.Verify on ONE parsed Authenticode / PECOFFBinary with the signer, twin and stranger certificates in both orders (signer first, other key first), mixed entry points and random walks; every call must answer what the same call answers on a freshly parsed object, and only (signer certificate, own hash input) may succeed. The histories also hold calls that are CUT SHORT: Authenticode.Verify over a reader that delivers the first k bytes of the hash input and then fails with a read error (the error in a read of its own, or together with the last bytes), or that delivers only the first k bytes, followed by a call that is handed only the REST of the hash input from k on (on the same object, or on an object parsed for that call, under the same or another certificate) and by a call over the whole image; k in {1, 63, 64, half, length-1, two random positions} (quick: one of the first five and one random), five fixed shapes per k plus the random walks, in which every step draws its stream from {whole, changed, fault@k, head@k, tail@k} and a quarter of the steps run on an object parsed for the step. The steps of a history run back to back; what each call answers alone is asked on freshly parsed objects after the history. A call over a failing reader, over a head or over a tail must never succeed. The reader-based API (Authenticode.Verify under the signer's certificate, SignAuthenticode) is run over every reader kind (bytes.Reader, bytes.Buffer, one byte per Read, data together with io.EOF, half reads, an io.SectionReader declared larger than the data) x the streams {hash input, last byte changed, middle byte changed, last byte missing, another image, the hash input without its first byte, the hash input from a position chosen by the image}, AND over seekable readers that do not stand at offset 0 when handed over: the stream behind a header of 1..96 random bytes with the reader standing on the first byte of the stream (bytes.Reader seeked / read up to there, strings.Reader seeked, io.SectionReader window into a larger buffer seeked / read up to there, *os.File seeked), and, for the two suffix streams, the same six readers over the WHOLE hash input standing at the cut; Verify must succeed exactly when the bytes the reader delivers are the hash input, SignAuthenticode (all reader kinds at offset 0; a third of the positioned ones per generated image, all of them for the repository binaries) must embed the SHA-256 of the bytes delivered. What the signature VALUE holds, and verifying certificates with RSA public exponent 3: every image is also signed with a 2048-bit exponent-3 key and must verify under that certificate (and under no stranger / twin); the image's genuine signature blob is then made to name the exponent-3 certificate with a signature value computed from the PUBLIC key alone - the integer cube root of a number that begins 00 01 FF*8 00 DigestInfo(SHA-256 of the attributes) and continues with whatever the root leaves (DigestInfo in its standard form / without NULL parameters; with eight / one / no padding octets; quick: the first two and one of the others per generated image) -, and to carry under the signer's own certificate values made with the private key over blocks that deviate from 00 01 FF..FF 00 DigestInfo in one respect (octets behind the DigestInfo, NULL parameters absent, four padding octets behind leading zeros, block type 02, a padding octet that is not FF, BER lengths in the DigestInfo, the digest of other attributes; quick: a third of them per generated image): nothing of this is an RSASSA-PKCS1-v1_5 signature by the named key, nothing may verify (judged by the Spec, by the independent stdlib verifier and by construction). Cross-protocol transplants: a signature the image-signing key made over something that is not an image - a variable update as SignEFIVariable signs it (SignPKCS7, content type data, detached; as ContentInfo and as the bare SignedData of a descriptor) and an OpenSSL-shaped detached CMS signature over the same bytes - whose UNSIGNED encapsulated content info is rewritten to the SpcIndirectDataContent of this image (content type rewritten to SpcIndirectDataContent, or left as data) and which is then placed in the image's certificate table: the signed contentType (data) and message digest (of the plain data) are the key holder's own, the key never committed to this image's digest, nothing may verify (quick: the first combination under all certificates and one other under the signer's per generated image; all six for the repository binaries). The targeted blob edits shared with C04 now include the encapsulated content replaced by an element with an EMPTY value (SEQUENCE / OCTET STRING / NULL / SET) and the signer entry re-made by the signer's own key under SHA-1 / SHA-384 / SHA-512 (quick: two of these nine per generated image, all on the repository binaries; C04 runs all of them on the blobs). Every case is non-trivial; distinct = distinct (image bytes, certificate) resp. (image, history, step) resp. (image, stream, reader).",
 		Assume: []string{"RSA/SHA-256 on the model side are the executable Lean implementations", "x509.ParseCertificates is opaque (its verdicts are handed to the model)"},
 		Eval:   c02Eval, Gen: c02Gen,
 	})
